@@ -41,6 +41,20 @@ CHECKS = {
         "note": "Trusted: Coq kernel (coqc 8.16.1, vm_compute; no axioms: every Print Assumptions is closed); the correspondence harness (Go harness mounted with -overlay, Python driver, checksum comparison of result + complete stored state after every step); store methods are treated as atomic steps (one mutex / one SQLite transaction on one pooled connection) and histories are sequential; the SQLite engine itself; Postgres backend cannot run here (read only). Payload/headers/trace are opaque handles in this model. Nondeterministic choices of the store (which ready messages a dequeue picks, generated ids, victims among equally old messages) are oracle inputs validated by the model, not predicted. Wall-clock long-poll wake-ups (MaxWait) are timing behaviour outside the model; process-kill restarts are exercised by C01.",
         "technique": "Coq proof (incl. history invariant for the sweep throttle) + per-step differential correspondence with both real stores",
     },
+    "C10": {
+        "category": "proof",
+        "text": "Coq theorems (Properties/C10.v, byte-level models of path.Clean, router.MatchPath, normalizeHost/matchHosts as written, header/query/remote-IP/method matching): resolution succeeds iff the route is the first in configuration order whose criteria all hold (criteria = inbound and path and host and headers and query and remote address and method, each with an iff specification); ingress never resolves to an outbound or internal route for any route list and request, nor do such routes contribute to Allow; no route => queue unchanged and 404, or 405 with exactly the de-duplicated methods when only the method differs; MatchPath iff equal, root, or prefix ending at a segment boundary; path.Clean is idempotent and its result is rooted without dot or empty segments; *.domain matches proper sub-domains only. Tied to the code by generated Hookaidofiles through the real Parse/Compile, a real runtimeState + ingress.Server receiving raw HTTP over loopback and direct ServeHTTP calls with crafted RemoteAddr; chosen route, status, Allow and queue delta compared with the model; the byte models compared with Go's string/path functions.",
+        "design_ref": "DESIGN.md section 5 C10, docs/notes/C10.md",
+        "note": "Trusted: Coq kernel; net/http request parsing, url.Query and netip parsing outputs are taken from Go and handed to the model; the harness. Two property-preserving variants (trailing dot stripped after the port; see notes) are accepted either way.",
+        "technique": "Coq proof (first-match characterisation, channel isolation, path/host lemmas) + differential run of the real resolver and handler",
+    },
+    "C11": {
+        "category": "proof",
+        "text": "Coq theorems (Properties/C11.v): what an HTTP Authorization value / gRPC metadata presents (iff shapes); authorized against a non-empty effective allowlist implies the presented token is a byte-equal member (near-miss prefix/suffix/case variants, empty, wrong scheme, malformed are rejected); a route's own tokens replace the global list; an unauthorized pull/worker/admin request answers 401/Unauthenticated with the store untouched and no store call (authorize is the first step of every handler, every admin path); a configuration that compiles leaves every pull endpoint with a non-empty allowlist (given that loading a secret never yields an empty value, which the harness checks on the real loader). Tied to the code by generated token configurations through the real Compile/loadAuth/startServers, real pullapi / workerapi (loopback gRPC and in-process) / admin servers, every operation and every admin path extracted from admin/http.go, header shapes incl. near-miss tokens; status/code and full store snapshot compared.",
+        "design_ref": "DESIGN.md section 5 C11, docs/notes/C11.md",
+        "note": "Trusted: Coq kernel; gRPC/HTTP transports; constant-time compare modelled as equality; the harness. Observation outside the statement: lease ids are not bound to routes (a token for endpoint A can ack a lease of endpoint B if it knows the lease id).",
+        "technique": "Coq proof (token membership, override, authorize-first, compile rule) + differential run of the real API servers",
+    },
     "C12": {
         "category": "proof",
         "text": "Queue part - Coq theorems: a refused enqueue (full, duplicate, pressure) returns exactly the pruned input state (nothing evicted, stored or touched); a successful enqueue leaves active <= max_depth; along every history without operator requeue/resume active <= max_depth (invariant); only enqueue and operator requeue/resume raise the active count; SQLite evicts exactly max(0, need - max_depth) distinct queued messages, the memory plan evicts distinct queued messages until not full; the victim is an oldest queued message on both backends; evictions only for a successful enqueue under drop_oldest (C02 removal relation). Rate-limit and size part (Properties/C12rl.v, lib/c12rl.py): token-bucket invariant 0 <= tokens <= burst, the window bound #admitted in [a,c] <= burst + rps*(c-a) for every call sequence with non-decreasing times (induction via an accounting lemma, exact rationals), no refill when the clock steps back, limiter choice (route override else global else admit), 413 for bodies/headers over the route limits and queue untouched on every refusal; tied to the code by white-box AllowAt/allowIngress runs with injected clock (binary64 twin bit-exact, window bound evaluated on the real decisions for all windows), concurrent hammering, rate_limit directives through the real Compile and loopback HTTP requests around the size limits. Tied to the code by per-step correspondence on small-max_depth histories (duplicates, over-sized batches) on both stores.",
@@ -82,6 +96,20 @@ CHECKS = {
         "design_ref": "DESIGN.md section 5 C09, docs/notes/C09.md",
         "note": "Known finding (known_findings.jsonl): reload-tolerance-grown-after-cleanup. Trusted: Coq kernel; sync.Mutex atomicity; monotone clock is an explicit hypothesis of the theorems; the harness.",
         "technique": "Coq proof over histories (cache invariant) + white-box and black-box differential replay histories",
+    },
+    "C16": {
+        "category": "proof",
+        "text": "Coq theorems (Properties/C16.v): with dns_rebind_protection an allowed URL resolves only to addresses outside the loopback, private, link-local, multicast and unspecified classes, the classes being INDEPENDENT RFC-range definitions for IPv4, IPv6 and IPv4-mapped addresses (the model of Go's class predicates is proved equal to them); deny rules win; a non-empty allowlist is closed; rule matching (exact host, *, *.domain for proper sub-domains only, IP, CIDR on unmapped addresses) has an exact specification; only http/https, https when https_only; over arbitrary redirect chains a request is sent to hop i only if hops 0..i all pass the check, nothing beyond hop 0 when redirects are off, at most the hop limit; a denial is reported as policy_denied, dead-lettered and never retried, with nothing sent. Tied to the code by the real HTTPDeliverer with a fake resolver and scripted 3xx chains (which hops received a request), isAllowedIP compared on range boundaries and random addresses, policies from the real Compile, and the real PushDispatcher for the DLQ reason.",
+        "design_ref": "DESIGN.md section 5 C16, docs/notes/C16.md",
+        "note": "Trusted: Coq kernel; url.Parse/Hostname/netip.ParseAddr outputs taken from Go; resolver timing (check-to-dial TOCTOU) is outside the statement; the harness.",
+        "technique": "Coq proof (RFC-range soundness of the IP classes, rule semantics, hop-by-hop send condition) + differential run of the real deliverer",
+    },
+    "C17": {
+        "category": "proof",
+        "text": "Coq theorems (Properties/C17.v, parametric in sha256/hmac): version validity is valid_from <= t < valid_until (edges proved); the selected version is characterised by an iff against a strict total order (newest_valid / oldest_valid, ties by id) among the versions valid at signing time; the signature header equals hex HMAC over METHOD, escaped path, unix seconds and hex sha256 of the body, the timestamp header the seconds; nothing is sent when no version is valid or the secret cannot be loaded; inbound verification accepts exactly the inline secrets and the versions valid at the signed timestamp. Tied to the code by the real HTTPDeliverer.Deliver with injected clock to a loopback target recording the received method, raw path, headers and body (signature recomputed independently), version sets with adjacent/overlapping/nested windows and equal valid_from, clock at every edge, and requests signed with each version at each time through the real ingress verification.",
+        "design_ref": "DESIGN.md section 5 C17, docs/notes/C17.md",
+        "note": "Known finding (known_findings.jsonl): redirect-hop-signature-not-recomputed. Trusted: Coq kernel; crypto/hmac, crypto/sha256, url escaping (the expected signature is computed from what the target received); the harness.",
+        "technique": "Coq proof (selection iff, window edges, signature equation) + end-to-end differential run of the real deliverer and ingress verification",
     },
     "C18": {
         "category": "proof",
